@@ -161,11 +161,13 @@ def run(ix, R):
         fill = fl.tab.atom('call', tuple(fa.args), extra=('fn:self.fill_atmosphere',))
         va = s.value
         ok = isinstance(s.node.value, ast.BinOp) and isinstance(s.node.value.op, ast.Add) and \
-            'fill_atmosphere' in unparse(s.node.value.left) and unparse(s.node.value.right) == 'mix_profile'
+            'fill_atmosphere' in unparse(s.node.value.left) and isinstance(s.node.value.right, ast.Name) and \
+            s.node.value.right.id == unparse(apps.node.func.value)
         g_site = TC + '::TaurexChemistry.gases'
         gf = ix.func(g_site)
         gret = unparse(gf.body()[-1].value)
-        ok2 = gret == 'self._fill_gases + [g.molecule for g in self._gases]'
+        from sa.pattern import find as _find
+        ok2 = _find(gf.node, ['return self._fill_gases + [V_g.molecule for V_g in self._gases]'])[0] is not None
         R.check('3.concat', 'EFF', site,
                 'mixing profiles are [fill gases..., trace gases...] and gas names are fill_gases + [g.molecule ...]: same order',
                 ok and ok2, key='%s / %s' % (unparse(s.node.value), gret),
